@@ -184,7 +184,14 @@ fn float_case<Rm: ModeTag + dashu_float::round::ErrorBounds, const B: Word>(r: &
         // both convert back; the simpler one decides who is wrong
         let (wu, we) = qref::round_ref(&want, base, p, Rm::M);
         if q_of_parts(&wu, we, base) == fq && simpler(&want, &got) {
-            if base % 2 == 1 && Rm::M.is_half() {
+            // known finding: in an odd base half an ulp is not representable, ErrorBounds approximates it from below by
+            // (B^k - 1) / (2 B^k) ulp with k = 4p + 64. Only a simplest fraction inside the sliver between that
+            // approximation and the exact tie point is excused; a coarser approximation is a violation
+            let k = 4 * p + 64;
+            let two_bk = BigRational::from_integer(BigInt::from(2)) * pow_q(base, k as i64);
+            let wm = want.abs();
+            let in_sliver = (&wm - &a).abs() <= &ulp_below / &two_bk || (&b - &wm).abs() <= &ulp / &two_bk;
+            if base % 2 == 1 && Rm::M.is_half() && in_sliver {
                 return mon::fail_kf("not_simplest", format!("simplest_from_float({}*{}^{}, p={}, {}) = {} but {} is simpler and also converts back (odd base: half an ulp is not representable by ErrorBounds)", s, base, e, p, Rm::M.name(), show_q(&got), show_q(&want)), "KF-C18-odd-base-half-ulp");
             }
             return fail("not_simplest", format!("simplest_from_float({}*{}^{}, p={}, {}) = {} but {} is simpler and also converts back", s, base, e, p, Rm::M.name(), show_q(&got), show_q(&want)));
